@@ -10,6 +10,10 @@ Open Scope Z_scope.
 
 Definition b2z (b : bool) : Z := if b then 1 else 0.
 
+(* the n low bits of x, i.e. x mod 2^n (PrngProofs.low_mod); written with land because Coq's
+   Z.modulo is a quadratic long division and these definitions are executed by the harness *)
+Definition low (n x : Z) : Z := Z.land x (Z.ones n).
+
 Fixpoint iter {A : Type} (n : nat) (f : A -> A) (x : A) : A :=
   match n with O => x | S n' => f (iter n' f x) end.
 
@@ -20,20 +24,19 @@ Definition msb_first (bits : list bool) : Z := fold_left (fun acc b => 2 * acc +
 (* the register holds the W >= 127 most recent bits, newest at bit 0; the new bit is the xor of
    the bits 127 and 126 steps old *)
 Definition lfsr_fb (s : Z) : bool := xorb (Z.testbit s 126) (Z.testbit s 125).
-Definition lfsr_step (W s : Z) : Z := (2 * s + b2z (lfsr_fb s)) mod 2 ^ W.
+Definition lfsr_step (W s : Z) : Z := low W (2 * s + b2z (lfsr_fb s)).
 (* the bit stream of the 127-bit LFSR started in state s *)
 Fixpoint lfsr_stream (n : nat) (s : Z) : list bool :=
   match n with O => [] | S n' => lfsr_fb s :: lfsr_stream n' (lfsr_step 127 s) end.
 
 (* ---------------- xoroshiro128+ ---------------- *)
-Definition M64 : Z := 2 ^ 64.
-Definition rotl64 (x k : Z) : Z := Z.lor (Z.shiftl x k mod M64) (Z.shiftr x (64 - k)).
+Definition rotl64 (x k : Z) : Z := Z.lor (low 64 (Z.shiftl x k)) (Z.shiftr x (64 - k)).
 (* uint64 next(): result = s0 + s1; s1 ^= s0; s[0] = rotl(s0,55) ^ s1 ^ (s1 << 14); s[1] = rotl(s1,36) *)
 Definition xoro_next (s : Z * Z) : Z * (Z * Z) :=
   let '(s0, s1) := s in
-  let result := (s0 + s1) mod M64 in
+  let result := low 64 (s0 + s1) in
   let s1' := Z.lxor s1 s0 in
-  (result, (Z.lxor (Z.lxor (rotl64 s0 55) s1') (Z.shiftl s1' 14 mod M64), rotl64 s1' 36)).
+  (result, (Z.lxor (Z.lxor (rotl64 s0 55) s1') (low 64 (Z.shiftl s1' 14)), rotl64 s1' 36)).
 (* n consecutive outputs, first output first *)
 Fixpoint xoro_words (n : nat) (s : Z * Z) : list Z :=
   match n with O => [] | S n' => fst (xoro_next s) :: xoro_words n' (snd (xoro_next s)) end.
@@ -60,11 +63,11 @@ Definition triv_step (st : tstate) : bool * tstate :=
   let t2' := xorb (xorb t2 (s 175 && s 176)) (s 264) in
   let t3' := xorb (xorb t3 (s 286 && s 287)) (s 69) in
   let '(a, b, c) := st in
-  (z, ((2 * a + b2z t3') mod 2 ^ 93, (2 * b + b2z t1') mod 2 ^ 84, (2 * c + b2z t2') mod 2 ^ 111)).
+  (z, (low 93 (2 * a + b2z t3'), low 84 (2 * b + b2z t1'), low 111 (2 * c + b2z t2'))).
 
 (* key / IV set-up: (s1..s93) = (K1..K80,0..0); (s94..s177) = (IV1..IV80,0..0);
    (s178..s288) = (0,..,0,1,1,1).  K_i = bit i-1 of key, IV_i = bit i-1 of iv. *)
-Definition triv_load (key iv : Z) : tstate := (key mod 2 ^ 80, iv mod 2 ^ 80, 7 * 2 ^ 108).
+Definition triv_load (key iv : Z) : tstate := (low 80 key, low 80 iv, Z.shiftl 7 108).
 
 (* n steps: the n output bits (earliest first) and the final state *)
 Fixpoint triv_run (n : nat) (st : tstate) : list bool * tstate :=
@@ -89,13 +92,13 @@ Definition nz (x : Z) : bool := negb (x =? 0).
 Definition s_lfsr_step (bitwidth s : Z) (i : Z * Z * Z) : Z :=
   let '(load, req, seed) := i in
   let W := Z.max 127 bitwidth in
-  if nz load then seed mod 2 ^ W
+  if nz load then low W seed
   else if nz req then iter (Z.to_nat bitwidth) (lfsr_step W) s
   else s.
 Fixpoint s_lfsr_run (bitwidth s : Z) (ins : list (Z * Z * Z)) : list Z :=
   match ins with
   | [] => []
-  | i :: ins' => s mod 2 ^ bitwidth :: s_lfsr_run bitwidth (s_lfsr_step bitwidth s i) ins'
+  | i :: ins' => low bitwidth s :: s_lfsr_run bitwidth (s_lfsr_step bitwidth s i) ins'
   end.
 
 (* prng_xoroshiro128: load -> s := (seed[63:0], seed[127:64]), not generating;
@@ -110,7 +113,7 @@ Definition s_xo_step (bitwidth : Z) (st : sxo_state) (i : Z * Z * Z) : sxo_state
   let '(s, words, collected, gen) := st in
   let '(load, req, seed) := i in
   let nx := xoro_next s in
-  if nz load then ((seed mod M64, (seed / M64) mod M64), words, collected, false)
+  if nz load then ((low 64 seed, low 64 (Z.shiftr seed 64)), words, collected, false)
   else if nz req then (snd nx, fst nx :: words, 1, true)
   else if gen && (collected <? sxo_g bitwidth) then (snd nx, fst nx :: words, collected + 1, true)
   else st.
@@ -118,8 +121,8 @@ Definition s_xo_out (bitwidth : Z) (st : sxo_state) (i : Z * Z * Z) : Z * Z :=
   let '(s, words, collected, gen) := st in
   let '(load, req, seed) := i in
   let g := sxo_g bitwidth in
-  let v := fold_right (fun w acc => w + M64 * acc) 0 (firstn (Z.to_nat g) words) in
-  (b2z (negb (nz load) && negb (nz req) && gen && (collected =? g)), v / 2 ^ (64 * g - bitwidth)).
+  let v := fold_right (fun w acc => w + Z.shiftl acc 64) 0 (firstn (Z.to_nat g) words) in
+  (b2z (negb (nz load) && negb (nz req) && gen && (collected =? g)), Z.shiftr v (64 * g - bitwidth)).
 Fixpoint s_xo_run (bitwidth : Z) (st : sxo_state) (ins : list (Z * Z * Z)) : list (Z * Z) :=
   match ins with
   | [] => []
@@ -141,7 +144,7 @@ Definition s_tv_step (bitwidth k : Z) (st : stv_state) (i : Z * Z * Z) : stv_sta
   let '(load, req, seed) := i in
   let adv := triv_run (Z.to_nat k) ts in
   let bits' := firstn (Z.to_nat bitwidth) (rev (fst adv) ++ bits) in
-  if nz load then (triv_load (seed / 2 ^ 80) seed, bits, 1, 0)
+  if nz load then (triv_load (Z.shiftr seed 80) seed, bits, 1, 0)
   else if nz req then (snd adv, bits', 2, 1)
   else if (phase =? 1) && (n <? 1152) then (snd adv, bits, 1, n + k)
   else if (phase =? 2) && (n <? stv_g bitwidth k) then (snd adv, bits', 2, n + 1)
@@ -164,3 +167,7 @@ Definition s_xo_trace (bitwidth : Z) (ins : list (Z * Z * Z)) : list (list Z) :=
   map spr2 (s_xo_run bitwidth sxo_init ins).
 Definition s_tv_trace (bitwidth k : Z) (ins : list (Z * Z * Z)) : list (list Z) :=
   map spr2 (s_tv_run bitwidth k stv_init ins).
+
+(* run-length encoded stimulus used by the harness: (load, req, seed, repeat count) *)
+Definition expand (l : list (Z * Z * Z * Z)) : list (Z * Z * Z) :=
+  flat_map (fun r => let '(a, b, c, n) := r in repeat (a, b, c) (Z.to_nat n)) l.
